@@ -551,6 +551,7 @@ def run(ctx):
     special_member_finders(ctx)
     override_matching(ctx)
     signature_equivalence(ctx)
+    overridden_virtuals_are_replaced(ctx)
 
     # ------------------------------------------------------------ R10.2
     fd = db.fn("InterrogateBuilder::define_struct_type")
@@ -719,3 +720,44 @@ def signature_equivalence(ctx):
         ok = peeled(a) and peeled(b)
         ctx.ob("R10.7", "CPPParameterList::is_equivalent|compare#%d|top-level-const-dropped-both-sides" % i, ok, f.loc(c),
                "`%s` compares %s" % (show(c)[:60], "const-peeled locals on both sides" if ok else "a type as written (receiver peeled: %s, argument peeled: %s)" % (peeled(a), peeled(b))))
+
+
+def overridden_virtuals_are_replaced(ctx):
+    """R10.8: get_virtual_funcs() builds the list of virtual functions "at or above" a class: the bases' lists, minus the
+    entries this class overrides, plus this class's own virtual members (the last loop collects every member carrying
+    SC_virtual).  An inherited entry may therefore be erased only together with marking its overrider SC_virtual - the
+    overrider then re-enters the list.  An erase without that marking LOSES a virtual function: a class whose only
+    virtual is an inherited destructor stops being polymorphic.  (Seed S6-C10.)"""
+    db = ctx.db
+    ctx.rule("R10.8", "in CPPStructType::get_virtual_funcs every erase of an inherited entry is followed, before the scan moves on, by `<member of this class>->_storage_class |= ... SC_virtual`")
+    f = db.fn("CPPStructType::get_virtual_funcs")
+    listp = [p for p in f.params][0]
+    erases = [c for c in f.walk() if c.get("k") == "call" and callee_short(c) == "erase" and (local_ref(c.get("this")) or {}).get("d") == listp["d"]]
+    marks = []
+    for y in f.walk():
+        if y.get("k") == "bin" and y.get("op") == "|=" and (field_of(y.get("x")) or "").endswith("_storage_class") and any((z.get("n") or "").endswith("SC_virtual") for z in walk(y.get("y")) if z.get("k") == "ref"):
+            marks.append(y)
+    if not erases:
+        ctx.broken("R10.8: get_virtual_funcs erases nothing from the inherited list any more")
+    mblocks = [f.cfg.locate(m) for m in marks if f.cfg.locate(m)]
+    # "the scan moves on": the assignment that advances the list iterator (vfi = vfnext), or the function's exit
+    adv = []
+    for y in f.walk():
+        t = assigned_target(y)
+        if t and local_ref(t[0]) is not None and local_ref(t[1]) is not None and "iterator" in (local_ref(t[0]).get("t") or "") and "iterator" in (local_ref(t[1]).get("t") or ""):
+            er_it = [(local_ref(strip_casts(peel(e["a"][0]))) or {}).get("d") for e in erases if e.get("a")]
+            if local_ref(t[0]).get("d") in er_it:
+                loc = f.cfg.locate(y)
+                if loc:
+                    adv.append(loc[0])
+    for i, e in enumerate(erases):
+        le = f.cfg.locate(e)
+        ok = False
+        if le is not None:
+            same = any(b == le[0] for (b, p) in mblocks)
+            reach = f.cfg.reachable(le[0], cut_blocks=[b for (b, p) in mblocks if b != le[0]])
+            escapes = any(a in reach for a in adv if a != le[0]) or f.cfg.exit in reach
+            ok = same or not escapes
+        ctx.ob("R10.8", "get_virtual_funcs|erase#%d|overrider-marked-virtual" % i, ok, f.loc(e),
+               "`%s` is %sfollowed by marking the overriding member SC_virtual before the scan moves on" % (show(e)[:30], "" if ok else "NOT always "))
+    ctx.floor("R10.8", "erase sites in get_virtual_funcs", len(erases), 2)
